@@ -61,7 +61,9 @@ def check_gaps(mon, rng, label, order, X):
     for i, j in pairs:
         want = G.small_m(W, a_or, X[i], X[j])
         try:
-            got = float(get_smallmij(X[i].copy(), X[j].copy(), W, alpha_real))
+            # callers pass alpha as (K,1) (OrderingCone.alpha) or flattened (the algorithms' cone_alpha): both must work
+            a_in = alpha_real if rng.random() < 0.6 else np.asarray(alpha_real).reshape(-1)
+            got = float(get_smallmij(X[i].copy(), X[j].copy(), W, a_in))
         except Exception as e:
             mon.violation(f"smallmij:crash:{type(e).__name__}", repr(e), {"W": W, "vi": X[i], "vj": X[j]})
             continue
